@@ -42,7 +42,8 @@ ASSUMPTIONS = [
 REACH = {t: ["event_before_response", "event_after_timeout", "cancel_before_response", "cancel_after_response",
              "refused", "returned", "timeout_waiting_event", "command_timeout", "scan_completion_before_response",
              "scan_results_in_order", "scan_pre_issue_result_excluded", "repeated_operation", "op_form", "op_leave",
-             "op_bringup", "op_scan", "leak_probe_done", "completed_on_a_repeated_status_value"] for t in ("quick", "thorough")}
+             "op_bringup", "op_scan", "leak_probe_done", "completed_on_a_repeated_status_value", "op_overlap",
+             "overlapping_registrations_checked", "non_lifo_lifetimes"] for t in ("quick", "thorough")}
 SHARD_TIMEOUT = {"quick": 900, "thorough": 3600}
 
 
@@ -105,6 +106,7 @@ def shards(tier, seed):
     for v in vs:
         for op in ("form", "leave", "bringup", "scan"):
             out.append({"version": v, "op": op, "tier": tier, "seed": seed})
+        out.append({"version": v, "op": "overlap", "tier": tier, "seed": seed})
         for op in ("form", "leave", "bringup"):
             # "quiet" runs: nothing but the operations' own completing events is ever delivered (no
             # probe events, no non-matching statuses), so consecutive operations on one EZSP see the
@@ -124,6 +126,8 @@ def run_shard(desc) -> Acc:
     acc = Acc()
     install_status_contract(acc)
     V, op = desc["version"], desc["op"]
+    if op == "overlap":
+        return run_overlap(desc)
     CMD_T = float(pm.EZSP_CMD_TIMEOUT)
     OPS_T = float(e.NETWORK_OPS_TIMEOUT)
     UP_T = float(A.NETWORK_UP_TIMEOUT_S)
@@ -395,5 +399,190 @@ def run_shard(desc) -> Acc:
     return acc
 
 
+def overlap_orders(actors):
+    """All interleavings of start/end events of the actors (start before end for each)."""
+    evs = [(a, k) for a in actors for k in ("start", "end")]
+    for p in itertools.permutations(evs):
+        pos = {e: i for i, e in enumerate(p)}
+        if all(pos[(a, "start")] < pos[(a, "end")] for a in actors):
+            yield list(p)
+
+
+def run_overlap(desc) -> Acc:
+    """Operations that register a callback for their duration, overlapping in every order of
+    start and end (scan, poll, ZLL scan, and a callback somebody else adds and removes): each
+    scan / poll still returns exactly the results delivered between its issue and its completion,
+    the foreign callback sees every frame once, and nothing stays registered afterwards."""
+    import bellows.types as t
+
+    logging.disable(logging.NOTSET)
+    logging.getLogger().setLevel(logging.CRITICAL)
+    acc = Acc()
+    install_status_contract(acc)
+    V = desc["version"]
+    elog = ExcLog()
+    lg = logging.getLogger("bellows.ezsp")
+    lg.addHandler(elog)
+    lg.setLevel(logging.ERROR)
+    lg.propagate = False
+    acc.hit("op_overlap")
+
+    async def main(loop):
+        st = await ncpsim.started(loop, V, acc, "C17")
+        ez, ncp = st.ezsp, st.ncp
+        S = lambda c, k: ncpmodel.status(ncp, c, k)  # noqa: E731
+        CMDS = {"S": "startScan", "P": "pollForData", "Z": "zllStartScan"}
+        DONE = {"S": ("scanCompleteHandler", lambda: [15, S("scanCompleteHandler", "ok")]),
+                "P": ("pollCompleteHandler", lambda: [S("pollCompleteHandler", "ok")]),
+                "Z": ("zllScanCompleteHandler", lambda: [S("zllScanCompleteHandler", "ok")])}
+
+        def script(name, args, seq):
+            if name in CMDS.values():
+                return [("reply", [S(name, "ok")])]
+            return None
+
+        ncp.script = script
+        baseline = len(ez._callbacks) if hasattr(ez, "_callbacks") else None
+        uniq = [0]
+
+        async def one(actors, order):
+            case = {"version": V, "op": "overlap", "actors": actors, "order": [list(e) for e in order]}
+            acc.case()
+            hist = []
+            elog.hits.clear()
+            active, tasks, outcome, expect = set(), {}, {}, {a: [] for a in actors}
+            seen_x = []
+            xid = [None]
+
+            def xcb(name, args):
+                seen_x.append((name, [int(v) for v in args] if name in ("energyScanResultHandler", "pollHandler") else None))
+
+            async def run(a):
+                try:
+                    if a == "S":
+                        r = await ez.startScan(t.EzspNetworkScanType.ENERGY_SCAN, t.Channels.ALL_CHANNELS, 3)
+                    elif a == "P":
+                        r = await ez.pollForData(10, t.EmberEventUnits.EVENT_MS_TIME, 3)
+                    else:
+                        r = await ez.zllStartScan(t.Channels.ALL_CHANNELS, 3, t.EmberNodeType.COORDINATOR)
+                    outcome[a] = ("ret", r)
+                except asyncio.CancelledError:
+                    outcome[a] = ("cancelled",)
+                    raise
+                except BaseException as ex:  # noqa: BLE001
+                    outcome[a] = ("raise", repr(ex)[:120])
+
+            def items():
+                # one energy result and one poll item with fresh values, to whoever is listening
+                uniq[0] += 1
+                ev = [uniq[0] % 200, -(uniq[0] % 100) - 1]
+                pv = [uniq[0] % 0xFFF0] + [0] * (len(ncp.COMMANDS["pollHandler"][2]) - 1)
+                cs = (ncp.requests[-1][3] - 1) % 256 if ncp.requests else 7
+                ncp._deliver_now(ncp.encode("energyScanResultHandler", ev, cs, callback=True))
+                ncp._deliver_now(ncp.encode("pollHandler", pv, cs, callback=True))
+                if "S" in active:
+                    expect["S"].append(ev)
+                if "P" in active:
+                    expect["P"].append(pv)
+                if "X" in active:
+                    expect["X"] += [("energyScanResultHandler", ev), ("pollHandler", pv)]
+                hist.append(("items", ev, pv, sorted(active)))
+
+            for (a, k) in order:
+                if k == "start":
+                    if a == "X":
+                        xid[0] = ez.add_callback(xcb)
+                    else:
+                        tasks[a] = asyncio.ensure_future(run(a))
+                        await asyncio.sleep(0.01)  # command sent and answered
+                    active.add(a)
+                else:
+                    if a == "X":
+                        try:
+                            ez.remove_callback(xid[0])
+                        except BaseException as ex:  # noqa: BLE001
+                            outcome["X"] = ("raise", repr(ex)[:120])
+                    else:
+                        name, vals = DONE[a]
+                        cs = (ncp.requests[-1][3] - 1) % 256
+                        ncp._deliver_now(ncp.encode(name, vals(), cs, callback=True))
+                        if "X" in active:
+                            expect["X"].append((name, None))
+                        await asyncio.sleep(0.01)
+                    active.discard(a)
+                hist.append((a, k))
+                items()
+                await asyncio.sleep(0.005)
+            await asyncio.sleep(0.05)
+            for a, tk in tasks.items():
+                if not tk.done():
+                    outcome.setdefault(a, ("pending",))
+                    tk.cancel()
+                    try:
+                        await tk
+                    except BaseException:  # noqa: BLE001
+                        pass
+            bad = []
+            for a in actors:
+                if a == "X":
+                    if outcome.get("X"):
+                        bad.append(("C17/overlap/remove-callback-raised", f"removing the foreign callback raised {outcome['X'][1]}"))
+                    got = [x for x in seen_x if x[0] in ("energyScanResultHandler", "pollHandler", "scanCompleteHandler", "pollCompleteHandler", "zllScanCompleteHandler")]
+                    if got != expect["X"]:
+                        bad.append(("C17/overlap/foreign-callback-missed-or-repeated-frames",
+                                    f"a callback registered during the operations saw {len(got)} frames, {len(expect['X'])} were delivered while it was registered"))
+                    continue
+                o = outcome.get(a, ("pending",))
+                if o[0] != "ret":
+                    bad.append(("C17/overlap/operation-did-not-complete",
+                                f"{CMDS[a]} overlapping with {[x for x in actors if x != a]} ended as {o} although its completion callback was delivered"))
+                    continue
+                res = [[int(v) for v in r] for r in o[1]]
+                if res != expect[a]:
+                    bad.append(("C17/overlap/results-differ", f"{CMDS[a]} returned {res}, delivered between its issue and completion: {expect[a]}"))
+            now = len(ez._callbacks) if hasattr(ez, "_callbacks") else None
+            if now != baseline:
+                bad.append(("C17/leak/listener-or-callback-remains", f"after overlapping operations {actors} in order {order}: {now} callbacks, baseline {baseline}"))
+            if elog.hits:
+                bad.append(("C17/overlap/handler-raised", f"{elog.hits[:2]}"))
+            for key, msg in bad[:3]:
+                acc.violation(key, msg, case, [repr(h) for h in hist])
+            if not bad:
+                acc.hit("overlapping_registrations_checked")
+                lifo = True
+                stack = []
+                for (a, k) in order:
+                    if k == "start":
+                        stack.append(a)
+                    else:
+                        if stack[-1] != a:
+                            lifo = False
+                        stack.remove(a)
+                if not lifo:
+                    acc.hit("non_lifo_lifetimes")
+            acc.nontrivial((V, "overlap", tuple(actors), tuple(order)))
+            if len(acc.samples) < 1:
+                acc.sample({"case": case, "history": [repr(h) for h in hist][:30]})
+
+        for actors in (["S", "P", "X"], ["S", "P", "Z"], ["P", "S", "X"], ["S", "Z", "X"]):
+            expect_x = None
+            for order in overlap_orders(actors):
+                # expectation lists are per run
+                await one(list(actors), order)
+
+    def patched_expect():
+        pass
+
+    try:
+        vloop.run(main)
+    except ncpsim.BringUpFailed:
+        pass
+    finally:
+        lg.removeHandler(elog)
+    return acc
+
+
 def replay(case) -> Acc:
+    if case.get("op") == "overlap":
+        return run_overlap({"version": case["version"], "op": "overlap", "tier": "quick", "seed": 0})
     return run_shard({"version": case["version"], "op": case["op"], "tier": "quick", "seed": 0, "quiet": case.get("quiet", False)})
